@@ -1,4 +1,4 @@
-import Vivid.Proofs.ActorSys
+import Vivid.Props.C02Order
 
 /-!
 # C02 — order over whole histories of one mailbox
@@ -22,6 +22,9 @@ processing steps at one mailbox.
   it enqueued them.
 * `C02_hist_poison_after_earlier`: when a user message (a poison kill is one) has been
   processed, every user message enqueued before it has been processed before it.
+* `C02_hist_stash_fifo` / `C02_hist_unstashed_prefix`: for every sequence of `Stash` and
+  `Unstash(n)` calls, returned ++ still stashed = stashed, in stash order (each comes back once);
+  `unstash_uses_stashCnt` ties the count rule to M10's `.unstash`.
 * `C02_hist_user_only_when_no_system_pending`: every user message in the log was picked at a
   moment when no system message was pending (so an immediate kill, a system message, overtakes
   all queued user mail), and none was picked while paused.
@@ -257,6 +260,79 @@ private def eS (i : Nat) : Env := { id := i, sys := true, sender := none, msg :=
 example :
     ((hrun [.enq (eU 1 7), .enq (eU 2 8), .enq (eU 3 7), .proc, .enq (eS 4), .pause, .proc, .proc, .resume, .proc, .proc] {}).log.map
       (fun x => (x.1.id, x.2.1, x.2.2))) = [(1, 0, false), (4, 0, true), (2, 0, false), (3, 0, false)] := by
+  decide
+
+/-! ## The stash over every history
+
+`stashCnt` is the count rule of M10's `.unstash n` (and of `Context.Unstash`): the no-argument
+fast path (`n = 0`) returns one message, `Unstash(n)` returns `min n (stash length)`.  The stash
+history records every envelope ever stashed (`stLog`) and every envelope ever returned to the
+mailbox (`unLog`), both in event order. -/
+
+def stashCnt (n len : Nat) : Nat := if n = 0 then min 1 len else min n len
+
+/-- The count M10 uses in `.unstash n` is `stashCnt` (tie to the model the lock-step compares). -/
+theorem unstash_uses_stashCnt (s : Sys) (self : Cid) (cur : Env) (n : Nat) :
+    ((runActions s self cur [.unstash n]).s.ctx self).stash =
+      (s.ctx self).stash.drop (stashCnt n (s.ctx self).stash.length) := by
+  simp only [runActions, upd_ctx_self, stashCnt]
+  rw [(foldl_enqueue_queues _ s self).2.2]
+
+structure StashH where
+  stash : List Env := []
+  stLog : List Env := []
+  unLog : List Env := []
+
+inductive SOp where
+  | stash (e : Env)
+  | unstash (n : Nat)
+
+def sstep (h : StashH) : SOp → StashH
+  | .stash e => { h with stash := h.stash ++ [e], stLog := h.stLog ++ [e] }
+  | .unstash n =>
+    let k := stashCnt n h.stash.length
+    { h with stash := h.stash.drop k, unLog := h.unLog ++ h.stash.take k }
+
+def srun (ops : List SOp) (h : StashH) : StashH := ops.foldl sstep h
+
+theorem sinv_step (h : StashH) (o : SOp) (inv : h.unLog ++ h.stash = h.stLog) :
+    (sstep h o).unLog ++ (sstep h o).stash = (sstep h o).stLog := by
+  cases o with
+  | stash e =>
+    show h.unLog ++ (h.stash ++ [e]) = h.stLog ++ [e]
+    rw [← List.append_assoc, inv]
+  | unstash n =>
+    show (h.unLog ++ h.stash.take (stashCnt n h.stash.length)) ++ h.stash.drop (stashCnt n h.stash.length) = h.stLog
+    rw [List.append_assoc, List.take_append_drop, inv]
+
+/-- **Stash order over every history**: whatever the sequence of `Stash` and `Unstash(n)` calls,
+the messages returned so far followed by the messages still stashed are exactly the messages
+stashed, in the order they were stashed - each comes back once, none overtakes another. -/
+theorem C02_hist_stash_fifo (ops : List SOp) :
+    (srun ops {}).unLog ++ (srun ops {}).stash = (srun ops {}).stLog := by
+  suffices ∀ h : StashH, h.unLog ++ h.stash = h.stLog → (srun ops h).unLog ++ (srun ops h).stash = (srun ops h).stLog from
+    this {} rfl
+  induction ops with
+  | nil => intro h inv; exact inv
+  | cons o ops ih => intro h inv; exact ih _ (sinv_step h o inv)
+
+/-- What has come back is a prefix of what was stashed. -/
+theorem C02_hist_unstashed_prefix (ops : List SOp) : (srun ops {}).unLog <+: (srun ops {}).stLog := by
+  rw [← C02_hist_stash_fifo ops]; exact List.prefix_append _ _
+
+/-- `Unstash(n)` on a stash of at least `n > 0` messages returns exactly `n`; the fast path returns one. -/
+theorem C02_hist_unstash_count (h : StashH) (n : Nat) :
+    (sstep h (.unstash n)).unLog.length = h.unLog.length + stashCnt n h.stash.length ∧
+    stashCnt n h.stash.length ≤ h.stash.length ∧ (0 < h.stash.length → 0 < stashCnt n h.stash.length) := by
+  refine ⟨?_, ?_, ?_⟩
+  · show (h.unLog ++ h.stash.take (stashCnt n h.stash.length)).length = _
+    have : stashCnt n h.stash.length ≤ h.stash.length := by unfold stashCnt; split <;> omega
+    simp [List.length_take, Nat.min_eq_left this]
+  · unfold stashCnt; split <;> omega
+  · intro hl; unfold stashCnt; split <;> omega
+
+example :
+    ((srun [.stash (eU 1 7), .stash (eU 2 7), .stash (eU 3 8), .unstash 0, .stash (eU 4 7), .unstash 5, .unstash 2] {}).unLog.map (·.id)) = [1, 2, 3, 4] := by
   decide
 
 end Vivid.ActorSys
